@@ -50,7 +50,15 @@ HopHdrs == << HdrC("Connection", "keep-alive, X-Hop", {"keep-alive", "x-hop"}),
               Hdr("set-cookie", "set-cookie", "b=2; Path=/"),
               CT >>
 
+\* n field lines X1..Xn (the response head may carry up to 128 field lines: MAX_RESPONSE_HEADERS_NUM)
+ManyHdrs(n) == [i \in 1..n |-> Hdr("X" \o Dec(i), "x" \o Dec(i), Dec(i))]
+
 Fixed == [
+    \* many field lines: just above the parser's first and second array sizes, and at the limit
+    many33   |-> S("h2", "GET", << EHead(OK200, 200, ManyHdrs(32) \o << CL(2) >>), EData(2) >>),
+    many65   |-> S("h2", "GET", << EHead(OK200, 200, ManyHdrs(64) \o << CL(2) >>), EData(2) >>),
+    many128  |-> S("h2", "GET", << EHead(OK200, 200, ManyHdrs(127) \o << CL(1) >>), EData(1) >>),
+    h1many100 |-> S("h1", "GET", << EHead(OK200, 200, ManyHdrs(99) \o << CL(2) >>), EData(2) >>),
     \* HTTP/2 client: Content-Length
     cl0      |-> S("h2", "GET", << EHead(OK200, 200, << CL(0) >>) >>),
     cl1      |-> S("h2", "GET", << EHead(OK200, 200, << CL(1), XA >>), EData(1) >>),
@@ -125,17 +133,20 @@ Inner(s, X) == { x \in X : 1 <= x /\ x < TotalLen(s) }
 Mid(s) == { Starts(s)[i] + (MCStreams[s].elems[i].n \div 2) : i \in 1..NElems(s) }
 Near(s) == Inner(s, Mid(s) \cup UNION { {b - 3, b - 2, b - 1, b, b + 1} : b \in Bounds(s) })
 
+\* long streams (the many-field-lines heads) are cut once by TLC; the harness brute-forces their 1- and 2-cuts itself
+Large(s) == TotalLen(s) > 400
 CutSets(s) ==
     LET one == {{}} \cup { {a} : a \in Near(s) }
         two == { {a, b} : a \in Inner(s, Bounds(s)), b \in Inner(s, Bounds(s)) }
-    IN  CASE CutMode = "gen1" -> one
+    IN  CASE Large(s) -> one
+          [] CutMode = "gen1" -> one
           [] CutMode = "gen2" -> one \cup two
           [] CutMode = "mc"   -> one \cup two \cup { {a, b} : a \in Near(s), b \in Inner(s, Bounds(s)) }
           [] CutMode = "mcfull" -> one \cup { {a, b} : a \in Near(s), b \in Near(s) }
 
 ToSegs(s, cs) == SetToSortSeq(cs \cup { TotalLen(s) }, <)
 
-MCCuts(s) == { ToSegs(s, cs) : cs \in CutSets(s) } \cup { [i \in 1..TotalLen(s) |-> i] }
+MCCuts(s) == { ToSegs(s, cs) : cs \in CutSets(s) } \cup (IF Large(s) THEN {} ELSE { [i \in 1..TotalLen(s) |-> i] })
 
 --------------------------------------------------------------------------
 (* inner-window patterns (one entry per write, used cyclically) *)
@@ -182,8 +193,13 @@ ACC == RH("accept", "*/*")
 CK1 == RH("cookie", "a=1")
 CK2 == RH("cookie", "b=2")
 
+\* header field values are octets, not text: a value with octets >= 0x80 (written {HH} in the vectors: ISO-8859-1 as browsers
+\* send it, UTF-8) reaches the origin octet for octet
+LAT == RH("x-city", "K{F6}ln")
+UTF == RH("cookie", "n={C3}{A9}t{C3}{A9}; city=K{F6}ln")
 HdrSets(host) == {
     << UA >>,
+    << UA, LAT, UTF >>,
     << RH("host", host), UA, PA, ACC >>,
     << PA, PC, RH("host", host), CK1, CK2 >>,
     << UA, RHN("content-length", 3) >>,
